@@ -23,6 +23,14 @@ Theorem C01_refines_spec_at : forall n t ts ops, n <> 0 -> t <> 0 -> run_ops_at 
 Proof. exact cq_refines_at. Qed.
 Print Assumptions C01_refines_spec_at.
 
+(* No adaptive client -- one that picks each next operation from the answers seen
+   so far, as the runtime's dispatch loop does -- can tell the calendar queue from
+   the specification. *)
+Theorem C01_indistinguishable_by_any_client : forall n t ts fuel (c : list out -> option op), n <> 0 -> t <> 0 ->
+  interact fuel c (init_at n t ts) [] = sp_interact fuel c (sp_init_at ts) [].
+Proof. exact cq_indistinguishable. Qed.
+Print Assumptions C01_indistinguishable_by_any_client.
+
 (* The representation invariant (window alignment, per-bucket order, bucket
    membership by slot, len counter, handle/ids discipline) holds in every
    reachable state. *)
